@@ -78,7 +78,7 @@ impl UndoOperation for UndoSetChar {
     }
 
     fn undo(&mut self, edit_state: &mut EditState) -> EngineResult<()> {
-        edit_state.buffer.layers[self.layer].set_char(self.pos, self.old);
+        edit_state.buffer.layers[self.layer].set_char_unchecked(self.pos, self.old);
         Ok(())
     }
 
@@ -549,11 +549,7 @@ impl UndoOperation for UndoLayerChange {
 
     fn undo(&mut self, edit_state: &mut EditState) -> EngineResult<()> {
         if let Some(layer) = edit_state.buffer.layers.get_mut(self.layer) {
-            if layer.get_size() == self.old_chars.get_size() {
-                layer.lines = self.old_chars.lines.clone();
-            } else {
-                layer.stamp(self.pos, &self.old_chars);
-            }
+            layer.restore(self.pos, &self.old_chars);
             Ok(())
         } else {
             Err(EditorError::InvalidLayer(self.layer).into())
@@ -562,11 +558,7 @@ impl UndoOperation for UndoLayerChange {
 
     fn redo(&mut self, edit_state: &mut EditState) -> EngineResult<()> {
         if let Some(layer) = edit_state.buffer.layers.get_mut(self.layer) {
-            if layer.get_size() == self.new_chars.get_size() {
-                layer.lines = self.new_chars.lines.clone();
-            } else {
-                layer.stamp(self.pos, &self.new_chars);
-            }
+            layer.restore(self.pos, &self.new_chars);
             Ok(())
         } else {
             Err(EditorError::InvalidLayer(self.layer).into())
@@ -637,6 +629,9 @@ impl UndoOperation for DeleteRow {
         if let Some(layer) = edit_state.get_buffer_mut().layers.get_mut(self.layer) {
             let mut deleted_row = Line::default();
             mem::swap(&mut self.deleted_row, &mut deleted_row);
+            if layer.lines.len() < self.line as usize {
+                layer.lines.resize(self.line as usize, Line::default());
+            }
             layer.lines.insert(self.line as usize, deleted_row);
             layer.set_height(layer.get_height() + 1);
             Ok(())
@@ -683,7 +678,9 @@ impl UndoOperation for InsertRow {
 
     fn undo(&mut self, edit_state: &mut EditState) -> EngineResult<()> {
         if let Some(layer) = edit_state.get_buffer_mut().layers.get_mut(self.layer) {
-            self.inserted_row = layer.lines.remove(self.line as usize);
+            if (self.line as usize) < layer.lines.len() {
+                self.inserted_row = layer.lines.remove(self.line as usize);
+            }
             layer.set_height(layer.get_height() - 1);
             Ok(())
         } else {
@@ -734,7 +731,9 @@ impl UndoOperation for DeleteColumn {
             let offset: usize = self.column as usize;
             for (i, ch) in self.deleted_chars.iter().enumerate() {
                 if let Some(ch) = ch {
-                    layer.lines[i].chars.insert(offset, *ch);
+                    if i < layer.lines.len() && offset <= layer.lines[i].chars.len() {
+                        layer.lines[i].chars.insert(offset, *ch);
+                    }
                 }
             }
             layer.set_width(layer.get_width() + 1);
